@@ -792,6 +792,13 @@ func (p *Path) mkRange(fr *Frame, x *ssa.Range) Val {
 	st := &iterState{}
 	switch c := v.(type) {
 	case Str:
+		if c.Bs != nil {
+			// bytes of a symbolic string: runes are decoded byte-wise;
+			// a byte >= 0x80 (multi-byte encoding) is not modelled
+			st.IsS = true
+			st.Bs = c.Bs
+			break
+		}
 		if !c.Concrete() {
 			panic(unsupported("range over symbolic string"))
 		}
@@ -814,6 +821,18 @@ func (p *Path) next(fr *Frame, x *ssa.Next) Val {
 	st := p.Heap[it.Obj].(*iterState)
 	ns := *st
 	var res Tuple
+	if st.IsS && st.Bs != nil {
+		if st.Pos >= len(st.Bs) {
+			return Tuple{smt.False, i64(0), smt.BVI(0, 32)}
+		}
+		b := st.Bs[st.Pos]
+		p.Assume(smt.BVUlt(b, smt.BVU(0x80, 8)))
+		p.Ghost["assumed:ascii"] = true
+		res = Tuple{smt.True, i64(int64(st.Pos)), smt.ZeroExt(b, 24)}
+		ns.Pos++
+		p.Heap[it.Obj] = &ns
+		return res
+	}
 	if st.IsS {
 		if st.Pos >= len(st.Str) {
 			return Tuple{smt.False, i64(0), smt.BVI(0, 32)}
